@@ -99,6 +99,13 @@ class Inst:
         return f'<{self.cls.mod.name}.{self.cls.name}(){a}>'
 
 
+class FoldIndexError(AnalysisError):
+    """IndexError of the folded program (ends sequence-protocol loops)"""
+
+
+_NoDunder = object()
+
+
 class BoundMethod:
 
     def __init__(self, inst, func):
@@ -401,7 +408,32 @@ class Folder:
             raise AnalysisError(
                 f'folding: attribute store on {o!r} at {mod.loc(node)}')
 
+    def dunder(self, inst, name, args, depth=0):
+        """call inst.<name>(*args) if its class defines it; else _NoDunder"""
+        for cm, cn in self.mro(inst.cls):
+            q = f'{cn}.{name}'
+            if q in cm.funcs:
+                return self.call_function(FuncRef(cm, q, cm.funcs[q]),
+                                          [inst] + list(args), {}, depth + 1)
+        return _NoDunder
+
     def iterate(self, v, node):
+        if isinstance(v, Inst):
+            # the sequence protocol: __getitem__(0), (1), .. until IndexError
+            out = []
+            i = 0
+            while True:
+                if i > 10000:
+                    raise AnalysisError('folding: unbounded iteration')
+                try:
+                    r = self.dunder(v, '__getitem__', [i])
+                except FoldIndexError:
+                    break
+                if r is _NoDunder:
+                    raise AnalysisError(f'folding: cannot iterate {v!r}')
+                out.append(r)
+                i += 1
+            return out
         if isinstance(v, (list, tuple)):
             return list(v)
         if isinstance(v, dict):
@@ -516,8 +548,16 @@ class Folder:
                                depth) if e.slice.upper else None
                 if isinstance(c, (list, tuple, str)):
                     return c[lo:hi]
+                if isinstance(c, Inst):
+                    r = self.dunder(c, '__getitem__', [slice(lo, hi)], depth)
+                    if r is not _NoDunder:
+                        return r
                 raise AnalysisError(f'folding: slice of {c!r}')
             k = self.expr(e.slice, env, mod, depth)
+            if isinstance(c, Inst):
+                r = self.dunder(c, '__getitem__', [k], depth)
+                if r is not _NoDunder:
+                    return r
             if isinstance(c, GuardedList):
                 items = self.concretise(c)
                 try:
@@ -529,7 +569,11 @@ class Folder:
             if isinstance(c, (list, tuple, dict, str)):
                 try:
                     return c[k]
-                except (KeyError, IndexError, TypeError) as ex:
+                except IndexError:
+                    raise FoldIndexError(
+                        f'folding: {unparse(e)} raises IndexError at '
+                        f'{mod.loc(e)} (key {k!r})')
+                except (KeyError, TypeError) as ex:
                     raise AnalysisError(
                         f'folding: {unparse(e)} raises {type(ex).__name__} '
                         f'at {mod.loc(e)} (key {k!r})')
@@ -594,6 +638,9 @@ class Folder:
                 return a + b
             if isinstance(a, (int, float)) and isinstance(b, (int, float)):
                 return a + b
+        if isinstance(op, ast.Pow) and isinstance(a, int) and isinstance(
+                b, int) and not isinstance(a, bool) and 0 <= b <= 4096:
+            return a ** b
         if isinstance(op, (ast.Sub, ast.Mult, ast.FloorDiv, ast.Mod)) and \
                 isinstance(a, (int, float)) and isinstance(b, (int, float)):
             import operator
@@ -609,6 +656,28 @@ class Folder:
             f'{a!r}, {b!r}')
 
     def compare(self, op, a, b, node):
+        if isinstance(op, (ast.Eq, ast.NotEq)) and (
+                isinstance(a, Inst) or isinstance(b, Inst)):
+            r = _NoDunder
+            if isinstance(a, Inst):
+                r = self.dunder(a, '__eq__', [b])
+            if r is _NoDunder and isinstance(b, Inst):
+                r = self.dunder(b, '__eq__', [a])
+            if r is _NoDunder:
+                r = a is b
+            r = self.truth(r, node)
+            return r if isinstance(op, ast.Eq) else not r
+        if isinstance(op, (ast.In, ast.NotIn)) and not isinstance(
+                a, Sym) and isinstance(b, (list, tuple, dict, Inst)) and (
+                    isinstance(a, Inst) or isinstance(b, Inst) or any(
+                        isinstance(x, Inst) for x in b)):
+            # membership: identity or equality, element first
+            hit = False
+            for x in self.iterate(b, node):
+                if x is a or self.compare(ast.Eq(), x, a, node):
+                    hit = True
+                    break
+            return hit if isinstance(op, ast.In) else not hit
         if isinstance(op, (ast.In, ast.NotIn)):
             if isinstance(b, GuardedList):
                 raise AnalysisError('folding: membership in guarded list')
@@ -839,6 +908,15 @@ class Folder:
             return ('ntclass', _c.namedtuple(args[0], list(fields)))
         if isinstance(f, tuple) and len(f) == 2 and f[0] == 'ntclass':
             return f[1](*args, **kwargs)
+        if isinstance(f, ExtRef) and f.dotted in (
+                're.match', 're.fullmatch', 're.search') and len(
+                    args) == 2 and all(isinstance(a, str) for a in args) \
+                and not kwargs:
+            # a regular expression applied to a concrete string: the
+            # library's answer (only its being None or not is used)
+            import re as _re
+            return getattr(_re, f.dotted.split('.')[1])(*args) is not None \
+                or None
         if isinstance(f, ExtRef):
             if f.dotted.startswith('logging.') or self.ignore_calls(
                     f.dotted):
@@ -878,9 +956,18 @@ class Folder:
                 return len(self.concretise(args[0]))
             if isinstance(args[0], Sym):
                 return Sym(('len', args[0].key))
+            if isinstance(args[0], Inst):
+                r = self.dunder(args[0], '__len__', [], depth)
+                if r is not _NoDunder:
+                    return r
             return len(args[0])
         if name == 'str':
             return self.to_str(args[0], e, mod, depth)
+        if name == 'hash' and len(args) == 1 and isinstance(
+                args[0], (str, int, tuple, frozenset)) and not any(
+                    isinstance(x, (Inst, Sym)) for x in (
+                        args[0] if isinstance(args[0], tuple) else ())):
+            return ('hash', args[0])
         if name == 'list':
             if not args:
                 return []
@@ -895,6 +982,14 @@ class Folder:
             return d
         if name == 'set':
             return set(self.iterate(args[0], e)) if args else set()
+        if name == 'int' and len(args) in (1, 2) and all(
+                isinstance(a, (str, int)) and not isinstance(a, bool)
+                for a in args):
+            try:
+                return int(*args)
+            except ValueError as ex:
+                raise AnalysisError(f'folding: int{tuple(args)!r} raises '
+                                    f'ValueError at {mod.loc(e)}')
         if name == 'frozenset':
             return frozenset(self.iterate(args[0], e)) if args else \
                 frozenset()
@@ -910,6 +1005,29 @@ class Folder:
             return list(zip(*[self.iterate(a, e) for a in args]))
         if name == 'isinstance':
             v, t = args
+            ts = t if isinstance(t, tuple) and t and isinstance(
+                t[0], (tuple, ClassRef)) else (t, )
+            if all(isinstance(x, ClassRef) or (isinstance(x, tuple) and x
+                                               and x[0] == 'builtin')
+                   for x in ts) and not isinstance(v, (Sym, GuardedList)) \
+                    and (len(ts) > 1 or isinstance(ts[0], ClassRef)):
+                py = {'tuple': tuple, 'list': list, 'str': str, 'dict': dict,
+                      'int': int, 'bool': bool, 'float': float,
+                      'bytes': bytes, 'set': set}
+                for x in ts:
+                    if isinstance(x, ClassRef):
+                        if isinstance(v, Inst) and any(
+                                (cm is x.mod and cn == x.name)
+                                for cm, cn in self.mro(v.cls)):
+                            return True
+                    elif x[1] in py:
+                        if not isinstance(v, Inst) and isinstance(
+                                v, py[x[1]]):
+                            return True
+                    else:
+                        raise AnalysisError(
+                            f'folding: isinstance(.., {x[1]})')
+                return False
             if isinstance(t, tuple) and t and t[0] == 'builtin':
                 py = {'tuple': tuple, 'list': list, 'str': str, 'dict': dict,
                       'int': int}.get(t[1])
